@@ -973,6 +973,10 @@ impl World {
 
 pub fn mul_div_floor(a: u128, b: u128, c: u128) -> u128 {
     use cosmwasm_std::Uint256;
+    if c == 0 {
+        // a reserve of zero only occurs on a broken tree; saturate instead of panicking inside the harness
+        return u128::MAX;
+    }
     let r = Uint256::from(a) * Uint256::from(b) / Uint256::from(c);
     Uint128::try_from(r).map(|x| x.u128()).unwrap_or(u128::MAX)
 }
